@@ -301,16 +301,28 @@ def matchRaw (mf : MatchFilter) (ci : Bool) (v : CVal) : Bool :=
       | .or => mf.words.any (subWord ci s)
     | _ => false
 
-/-- `fopOnString` without regexp: `eq` = Equals, else NotEquals; non-string records give `false` (filterOpOnDataType) -/
+/-- `fopOnString` without regexp: `eq` = Equals, else NotEquals; a BACK-FILL record (the event does not have the
+column) satisfies exactly `!=`, like the empty record of a block without the column (patch c02-1); other non-string
+records give `false` (filterOpOnDataType) -/
 def exprRaw (eq ci : Bool) (val : Bytes) (v : CVal) : Bool :=
   match v with
   | .str s =>
     if eq then s.length == val.length && bytesEq ci s val else !bytesEq ci s val
+  | .backfill => !eq
   | _ => false
 
-/-- `filterOpOnDataType` for a boolean literal on a stored record — as repaired by patch c03-E: a record that is not a
-boolean (back-fill, string, number) does not match, for `=` and for `!=` (as for string literals) -/
+/-- `filterOpOnDataType` for a boolean literal on a stored record — as repaired by patch c03-E: a record of another
+type (string, number) does not match, for `=` and for `!=` (as for string literals); and by patch c02-1: a BACK-FILL
+record (the event does not have the column) satisfies exactly `!=`, like the empty record of a block without the
+column -/
 def boolRaw (eq : Bool) (lit : Bool) (v : CVal) : Bool :=
+  match v with
+  | .bool b => if eq then b == lit else b != lit
+  | .backfill => !eq
+  | _ => false
+
+/-- BEFORE patch c02-1 (after c03-E): the back-fill record never matched -/
+def boolRawBackfillOld (eq : Bool) (lit : Bool) (v : CVal) : Bool :=
   match v with
   | .bool b => if eq then b == lit else b != lit
   | _ => false
